@@ -261,6 +261,8 @@ impl BuiltInFunction {
                     call_stack: Rc<RefCell<Stack>>,
                     filter_result: GcVector,
                     index: Cell<i32>,
+                    /// The element that was handed to the callback; the callback may shrink the list.
+                    current: RefCell<Option<Primitive>>,
                 }
 
                 impl FilterOp {
@@ -276,6 +278,7 @@ impl BuiltInFunction {
                             filter_result: GcVector::default(),
                             underlying,
                             index: Cell::new(0),
+                            current: RefCell::new(None),
                         }
                     }
                 }
@@ -286,6 +289,7 @@ impl BuiltInFunction {
                         self.index.set(this_index + 1);
                         let underlying = self.underlying.0.borrow();
                         let this_value: Primitive = underlying[this_index as usize].clone();
+                        *self.current.borrow_mut() = Some(this_value.clone());
 
                         Ok(JumpRequest {
                             destination: JumpRequestDestination::Standard(
@@ -300,10 +304,10 @@ impl BuiltInFunction {
                     fn then(&self, return_value: ReturnValue) -> Result<bool> {
                         let mut result = self.filter_result.0.borrow_mut();
 
+                        let current = self.current.borrow_mut().take();
+
                         if let ReturnValue::Value(Primitive::Bool(true)) = return_value {
-                            let underlying = self.underlying.0.borrow();
-                            let this_index: usize = (self.index.get() - 1).try_into()?;
-                            result.push(underlying[this_index].clone());
+                            result.push(current.context("filter: no element is being tested")?);
                         }
 
                         Ok(<i32 as TryInto<usize>>::try_into(self.index.get())?
